@@ -1,6 +1,7 @@
 package checks
 
 import (
+	"bytes"
 	"errors"
 	"fmt"
 	"io"
@@ -23,7 +24,7 @@ func init() {
 			Property: "C05",
 			Rule: "I1: every byte string of length <=4 (quick) / 5 (thorough) over a 20-symbol alphabet reaching every lexer mode, raw and spliced into the body, the header and between the nodes of a valid wrapper; " +
 				"I2: every single (quick) / pair (thorough, reduced vocabulary) of token-level mutations {delete, duplicate, transpose, replace by each token of a vocabulary} at every token position of a grammar-coverage corpus of valid scripts (one per alternative of the parser rules and per lexer mode), plus truncation at every byte; " +
-				"I3: every 2-way split of every corpus script across two readers at every byte offset, and every composition of its whole nodes into readers, plus empty / invalid readers before and after valid ones; I5: every indentation string over {space, tab} of length <=10 (quick) / 13 (thorough) before a content line, a comment line and a blank line in five contexts (node body, option body, after a 4-space and after a tab-indented line, if body); I6: every corpus script delivered one byte at a time / by half reads / with the last bytes together with EOF / with empty reads in between (same answer as from a plain reader), and cut by a read error after every number of bytes, alone and as the second of two readers (an error, never a runner); I4: every seed over {a z 0 9 A - space é} up to length 3, the empty seed and overflow-length seeds; " +
+				"I3: every 2-way split of every corpus script across two readers at every byte offset, and every composition of its whole nodes into readers, plus empty / invalid readers before and after valid ones; I5: every indentation string over {space, tab} of length <=10 (quick) / 13 (thorough) before a content line, a comment line and a blank line in five contexts (node body, option body, after a 4-space and after a tab-indented line, if body); I6: every corpus script delivered one byte at a time / by half reads / with the last bytes together with EOF / with empty reads in between (same answer as from a plain reader), and cut by a read error after every number of bytes, alone and as the second of two readers (an error, never a runner); I7: every corpus script in a seekable reader of which the host has consumed every number of bytes (strings.Reader, bytes.Reader), in a reader used before, in one reader value passed twice, in a reader positioned by Seek (the input is what the readers still have to deliver); I4: every seed over {a z 0 9 A - space é} up to length 3, the empty seed and overflow-length seeds; " +
 				"oracle: independent validity (the generated lexer and parser run by the harness with its own error listeners: valid iff no lexer error, no parser error, no panic and the whole token stream is consumed; a multi-reader input is valid iff every reader is; a non-blank non-comment line whose indentation mixes tabs and spaces is invalid whatever the recogniser says; a seed is valid iff it is over [0-9a-z]*): " +
 				"no panic; valid => runner returned (and a first Next does not panic), invalid => error; a case is one (input, split, seed); non-trivial = input differs from a corpus script",
 			StatesMean:  "distinct (input, reader split, seed) cases; transitions = NewDialogueRunner calls",
@@ -397,6 +398,62 @@ func runC05(ctx *report.Ctx) {
 					fail("delivery-changes-answer", fmt.Sprintf("first element %s, read from a plain reader %s", a.String(), b.String()))
 				}
 			}
+		}
+	})
+
+	// I7: where the readers stand. The input of a reader is what it still has to deliver: a seekable reader
+	// (strings.Reader, bytes.Reader, a file) from which the host has already consumed k bytes delivers the rest; one
+	// that was read to its end (by an earlier NewDialogueRunner, say) delivers nothing, which is no script; one reader
+	// value passed twice delivers its bytes once.
+	part(ctx, "I7-reader-position", -1, func(c *explore.Chooser) {
+		i := c.Choose(len(corpus), "script")
+		kind := c.Choose(4, "usage")
+		if !c.Mine() {
+			return
+		}
+		src := corpus[i]
+		var readers []io.Reader
+		var equivalent []string // what the readers still have to deliver
+		var desc string
+		switch kind {
+		case 0: // the host has consumed the first k bytes
+			k := c.Choose(len(src)+1, "consumed")
+			var r io.Reader = strings.NewReader(src)
+			if c.Choose(2, "reader-type") == 1 {
+				r = bytes.NewReader([]byte(src))
+			}
+			io.CopyN(io.Discard, r, int64(k))
+			readers, equivalent = []io.Reader{r}, []string{src[k:]}
+			desc = fmt.Sprintf("script %d in a seekable reader of which the host has consumed %d bytes", i, k)
+		case 1: // a reader used for a second runner
+			r := strings.NewReader(src)
+			yc.NewRealFrom([]io.Reader{r}, "abc", nil)
+			readers, equivalent = []io.Reader{r}, []string{""}
+			desc = fmt.Sprintf("the reader of script %d used for a second runner", i)
+		case 2: // the same reader value twice
+			r := bytes.NewReader([]byte(src))
+			readers, equivalent = []io.Reader{r, r}, []string{src, ""}
+			desc = fmt.Sprintf("the reader of script %d passed twice", i)
+		case 3: // positioned by Seek
+			k := c.Choose(len(src)+1, "offset")
+			r := strings.NewReader(src)
+			r.Seek(int64(k), io.SeekStart)
+			readers, equivalent = []io.Reader{strings.NewReader("title: First\n---\nx\n===\n"), r}, []string{"title: First\n---\nx\n===\n", src[k:]}
+			desc = fmt.Sprintf("script %d in a reader positioned at offset %d by Seek, as second reader", i, k)
+		}
+		ctx.Current("I7-reader-position: " + desc)
+		_, err, pan := yc.NewRealFrom(readers, "abc", nil)
+		_, wantErr, _ := yc.NewReal(equivalent, "abc", nil)
+		ctx.AddEvals(1, 1)
+		ctx.AddStates(1)
+		ctx.AddTransitions(2)
+		ctx.AddTraces(1)
+		switch {
+		case pan != "":
+			ctx.Violation(report.Violation{Clause: "load-panic", Witness: desc, Detail: "NewDialogueRunner panicked: " + pan, Choices: c.Choices(), Part: "I7-reader-position"})
+		case (err == nil) != (wantErr == nil):
+			ctx.Violation(report.Violation{Clause: "reader-position-ignored", Witness: desc, Choices: c.Choices(), Part: "I7-reader-position",
+				Detail: fmt.Sprintf("what the readers still have to deliver is %q, for which the answer is error=%v; the answer was error=%v (%v)", equivalent, wantErr != nil, err != nil, err)})
 		}
 	})
 
